@@ -77,3 +77,30 @@ Proof.
     apply in_map_iff in Hin as (q & Eq & Hq). unfold neq_triple in Eq. inversion Eq; subst. exists q. auto.
   - intros (q & Hq & H). right. exists (neq_text q), (nids (nlhs q)), (nids (nrhs q)). split; [apply (in_map_triple q qs Hq)|exact H].
 Qed.
+
+(* ---- G.edges() as networkx lists them (Graph.nx_edges, what the correspondence compares) is the same edge set ---- *)
+Lemma nlookup_in n ns : nlookup n ns <> None <-> exists a, In (n, a) ns.
+Proof.
+  induction ns as [|[k v] r IH]; [split; [intros H; exfalso; apply H; reflexivity|intros (a & [])]|].
+  rewrite nlookup_cons. destruct (String.eqb n k) eqn:E.
+  - apply String.eqb_eq in E. subst k. split; [intros _; exists v; left; reflexivity|discriminate].
+  - rewrite IH. apply String.eqb_neq in E. split; intros (a & H); exists a; [right; exact H|].
+    destruct H as [H|H]; [inversion H; congruence|exact H].
+Qed.
+
+Lemma nx_edges_in g p : In p (nx_edges g) <-> In p (gedges g) /\ nlookup (fst p) (gnodes g) <> None.
+Proof.
+  unfold nx_edges. rewrite in_flat_map. split.
+  - intros ([k a] & Hk & Hp). apply filter_In in Hp as [Hp E]. cbn [fst] in E. apply String.eqb_eq in E.
+    split; [exact Hp|]. apply nlookup_in. exists a. rewrite E. exact Hk.
+  - intros [Hp Hn]. apply nlookup_in in Hn as (a & Ha). exists (fst p, a). split; [exact Ha|].
+    apply filter_In. split; [exact Hp|]. cbn [fst]. apply String.eqb_refl.
+Qed.
+
+Theorem networkx_edge_view qs x n : In (x, n) (nx_edges (graph_of qs)) <-> is_edge (graph_of qs) x n = true.
+Proof.
+  rewrite nx_edges_in. cbn [fst]. unfold is_edge at 1. rewrite <- has_edge_In. fold (is_edge (graph_of qs) x n). split; [intros [H _]; exact H|].
+  intros H. split; [exact H|]. rewrite <- node_attr_lookup. apply nodes_exact.
+  apply edges_exact in H as (q & Hq & Hn & Hx). exists q. split; [exact Hq|]. right. split; [|exact Hx].
+  intros E. rewrite E in Hn. destruct Hn.
+Qed.
